@@ -18,3 +18,13 @@ func Yield(string) {}
 
 // Note reports an internal ordering event to the deterministic simulator.
 func Note(string, any) {}
+
+// Keys returns the keys of the set in the iteration order of the map (which the runtime randomises).
+func Keys(_ string, m map[string]struct{}) []string {
+	out := make([]string, 0, len(m))
+	for k := range m {
+		out = append(out, k)
+	}
+
+	return out
+}
